@@ -106,14 +106,53 @@ type OnKill struct {
 	Poison bool     // 是否采用毒杀模式，true 时立即销毁，不处理剩余队列，false 时常规优雅下线。
 }
 
-func onKillReader(message any, reader *messages.Reader, codec messages.Codec) error {
+func onKillReader(message any, reader *messages.Reader, codec messages.Codec) (err error) {
 	m := message.(*OnKill)
-	return reader.ReadInto(&m.Killer, &m.Reason, &m.Poison)
+	if m.Killer, err = readActorRef(reader); err != nil {
+		return err
+	}
+	return reader.ReadInto(&m.Reason, &m.Poison)
 }
 
 func onKillWriter(message any, writer *messages.Writer, codec messages.Codec) error {
 	m := message.(*OnKill)
-	return writer.WriteFrom(m.Killer, m.Reason, m.Poison)
+	if err := writeActorRef(writer, m.Killer); err != nil {
+		return err
+	}
+	return writer.WriteFrom(m.Reason, m.Poison)
+}
+
+// writeActorRef 以 address、path 两个字符串写入 ActorRef，nil 写为两个空串。
+// ActorRef 是接口，其实现（internal/actor.Ref）没有可导出字段：交给通用反射读写器时，
+// 写入端什么也写不出，读取端则以 "unsupported type for reading" 失败，远程 Kill 与 Watch 通知因此无法解码。
+func writeActorRef(writer *messages.Writer, ref ActorRef) error {
+	if ref == nil {
+		return writer.WriteFrom("", "")
+	}
+	return writer.WriteFrom(ref.GetAddress(), ref.GetPath())
+}
+
+// readActorRef 读取 writeActorRef 写入的 ActorRef。
+func readActorRef(reader *messages.Reader) (ActorRef, error) {
+	var address, path string
+	if err := reader.ReadInto(&address, &path); err != nil {
+		return nil, err
+	}
+	if address == "" && path == "" {
+		return nil, nil
+	}
+	if messages.ActorRefFactory == nil {
+		return nil, fmt.Errorf("actor ref factory is not registered")
+	}
+	v, err := messages.ActorRefFactory(address, path)
+	if err != nil {
+		return nil, err
+	}
+	ref, ok := v.(ActorRef)
+	if !ok {
+		return nil, fmt.Errorf("actor ref factory returned %T", v)
+	}
+	return ref, nil
 }
 
 // Pong 表示 Ping 消息的响应。
@@ -162,14 +201,15 @@ type OnKilled struct {
 	Ref ActorRef // 被终止的 ActorRef
 }
 
-func onKilledReader(message any, reader *messages.Reader, codec messages.Codec) error {
+func onKilledReader(message any, reader *messages.Reader, codec messages.Codec) (err error) {
 	m := message.(*OnKilled)
-	return reader.ReadInto(&m.Ref)
+	m.Ref, err = readActorRef(reader)
+	return err
 }
 
 func onKilledWriter(message any, writer *messages.Writer, codec messages.Codec) error {
 	m := message.(*OnKilled)
-	return writer.WriteFrom(m.Ref)
+	return writeActorRef(writer, m.Ref)
 }
 
 type StreamEvent any
